@@ -26,7 +26,7 @@ META = {
     "id": "C17",
     "level": "proof",
     "technique": "Coq theorems (closed-form step count for every completion order by induction with a loop invariant; exactly-once invariant of the task-runner protocol over arbitrary event interleavings) + lock-step of the extracted scheduler model with the real scheduler() and trace validation of the real aiorunner/future_list",
-    "text": "Unbounded theorems: for all worker counts W >= 1, start steps c0 and totals T with any restart point c0 <= T (also with fewer steps left than workers) and EVERY completion order, the scheduler loop submits exactly T - c0 jobs and completes exactly those, each once, ends with nothing in flight, cstep = T, and the restart file records cstep = T with an empty lock list; every completion rewrites the restart file with the current counter; for the task-runner protocol (queue, worker wrappers, futures, as_completed, stop) in every interleaving no unit is executed twice, no result delivered twice, a delivered outcome is the one stored in the unit's own future, a future is set once, and after a clean shutdown every submitted unit was executed and resolved. Tie: all (workers<=3/4, steps<=W+4, stop point, completion order) runs of the real scheduler() compared with the model; the real aiorunner with scripted task durations/failures validated event by event by the extracted acceptor.",
+    "text": "Unbounded theorems: for all worker counts W >= 1, start steps c0 and totals T with any restart point c0 <= T (also with fewer steps left than workers) and EVERY completion order, the scheduler loop submits exactly T - c0 jobs and completes exactly those, each once, ends with nothing in flight, cstep = T, and the restart file records cstep = T with an empty lock list; every completion rewrites the restart file with the current counter; for the task-runner protocol (queue, worker wrappers, futures, as_completed, stop) in every interleaving no unit is executed twice, no result delivered twice, a delivered outcome is the one stored in the unit's own future, a future is set once, and after a clean shutdown every submitted unit was executed and resolved. for a run stopped after ANY number n of consumed results and restarted from the file's counter with ANY worker count and completion order, the file's counter is c0 + n, no job is both consumed and in flight, and the results consumed by the two runs add up to exactly T - c0 (C17_stop_restart_exact; the stopped state is one the uninterrupted model passes through, C17_prefix_is_scheduler). Tie: all (workers<=3/4, steps<=W+4, stop point, completion order) runs of the real scheduler() compared with the model, the stopped state itself (consumed, submitted, in flight, counters in memory and in restart.toml) with the extracted main_prefix; the real aiorunner with scripted task durations/failures validated event by event by the extracted acceptor.",
     "note": "Trusted: Coq kernel; extraction + OCaml driver; harness. asyncio / threads / the process pool are runtime: only their observable protocol is checked (event order reconstructed from monotonic time stamps with task durations spaced 0.25 s apart); real-time races inside submit_work (asyncio.run on a queue owned by another loop) cannot be exhibited by the model. The model has both the original and the repaired initiate() (fix 49b84d7, never more jobs than steps left); the theorems are for the repaired rule, the original one is refuted by a witness.",
     "design_ref": "4/C17",
 }
@@ -286,6 +286,10 @@ def run(ctx):
             ch = ",".join(map(str, sched[used:])) or "-"
             reqs.append(f"sched {seg['c0']} {seg['T']} {W} {ch}")
             refs.append((case, si, seg, used))
+            if seg["status"] == "stopped":
+                # the stopped state itself: SchedCrashP.main_prefix after as many iterations as results were consumed
+                reqs.append(f"prefix {seg['c0']} {seg['T']} {W} {len(seg['completed'])} {ch}")
+                refs.append((case, si, seg, "prefix"))
             used += len(seg["completed"] or [])
     outs = runner.run(reqs)
     nbad = 0
@@ -298,6 +302,44 @@ def run(ctx):
                 nbad += 1
                 ctx.violation(f"C17 statement fails on the implementation: restarting a finished run with a larger step count ({seg['T']}) does not continue (setup_config returned None)",
                               {"case": case, "segment": si}, found_input=True)
+            continue
+        if used == "prefix":
+            ctx.dist(f"sched:W{W}:stopped-state")
+            ctx.count(("prefix", case, si), nontrivial=True)
+            m = out.split("|")
+            ints = lambda t: [int(x) for x in t.split(",")] if t != "-" else []
+            pp = []
+            if out == "NONE":
+                pp.append("the model's start-up phase does not end")
+            else:
+                if seg["completed"] != ints(m[0]):
+                    pp.append(f"results consumed before the stop {seg['completed']}, model {ints(m[0])}")
+                if seg["submitted"] != int(m[1]):
+                    pp.append(f"{seg['submitted']} jobs submitted before the stop, model {m[1]}")
+                if sorted(seg["in_flight"]) != sorted(ints(m[3])):
+                    pp.append(f"jobs in flight at the stop {sorted(seg['in_flight'])}, model {sorted(ints(m[3]))}")
+                # the stop is raised inside the next iteration, after loop() has advanced the in-memory counter
+                if seg["cstep"] != int(m[2]) + 1:
+                    pp.append(f"in-memory cstep at the stop {seg['cstep']}, model {int(m[2]) + 1}")
+                if seg["restart_cstep"] is not None and seg["restart_cstep"] != int(m[4]):
+                    pp.append(f"restart.toml cstep at the stop {seg['restart_cstep']}, model {m[4]}")
+                if seg["restart_locked"] is not None and seg["restart_locked"] != len(ints(m[5])):
+                    pp.append(f"restart.toml records {seg['restart_locked']} jobs in flight at the stop, model {len(ints(m[5]))}")
+            # the statement (C17_stop_restart_exact): no ordinal both consumed and in flight, all submitted accounted for
+            both = sorted(set(seg["completed"]) & set(seg["in_flight"]))
+            acc = sorted(seg["completed"] + seg["in_flight"])
+            if both and nbad < 6:
+                nbad += 1
+                ctx.violation(f"C17 statement fails on the implementation: job(s) {both} consumed and still in flight at the stop after "
+                              f"{len(seg['completed'])} results ({W} workers, {seg['T']} steps)", {"case": case, "segment": si, "observed": seg}, found_input=True)
+            elif acc != list(range(seg["submitted"])) and nbad < 6:
+                nbad += 1
+                ctx.violation(f"C17 statement fails on the implementation: at the stop after {len(seg['completed'])} results the {seg['submitted']} submitted jobs "
+                              f"are not exactly the consumed {seg['completed']} plus the in-flight {seg['in_flight']}", {"case": case, "segment": si, "observed": seg}, found_input=True)
+            elif pp and nbad < 6:
+                nbad += 1
+                ctx.violation(f"scheduler model and implementation disagree on the stopped state: {pp[0]}", {"case": case, "segment": si, "observed": seg, "model": out},
+                              found_input=False)
             continue
         ctx.count(("sched", case, si), nontrivial=len(seg["completed"] or []) > 0)
         m = out.split("|")
